@@ -558,6 +558,27 @@ func genHistCase(r *Rng, id int, tier string) *Sx {
 			}
 		}
 	}
+	// scenario: a policy admits peers by a label of their namespace; the question is put, the namespace comes back without
+	// that label (or with another value, or with one more label), and the question is put again
+	if r.P(20) {
+		a, b := Pick(r, pods), Pick(r, pods)
+		if a.name != b.name {
+			nsl := &Sel{ML: []KV{{"team", "x"}}}
+			np := &NetPol{NS: b.ns, Name: "npns", PodSel: Sel{ML: b.labels}, Types: []string{"I"}, Ingress: []NPRule{{Peers: []NPPeer{{NsSel: nsl}}}}}
+			add(Obj{Kind: "ns", Ns: &NsObj{Name: a.ns, Labels: []KV{{"team", "x"}, {"env", "y"}}}})
+			if b.ns != a.ns {
+				add(nsObj(b.ns))
+			}
+			add(podObj(a))
+			add(podObj(b))
+			add(Obj{Kind: "np", Np: np})
+			q := Ls(At("q"), At(a.ns+"/"+a.name), At(b.ns+"/"+b.name), At("TCP"), At("80"))
+			queries = append(queries, q)
+			c.Add(q)
+			add(Obj{Kind: "ns", Ns: &NsObj{Name: a.ns, Labels: Pick(r, [][]KV{{}, {{"env", "y"}}, {{"team", "y"}, {"env", "y"}}, {{"team", "x"}, {"env", "y"}, {"extra", "z"}}})}})
+			c.Add(q)
+		}
+	}
 	n := r.Range(5, 40)
 	if tier == "thorough" {
 		n = r.Range(5, 60)
